@@ -94,6 +94,8 @@ def run(name, checks, tier="quick", inplace=False):
         r = sh("git -C /repo worktree add -q --detach %s HEAD" % target)
         assert r.returncode == 0, r.stdout
         ap = sh("git -C %s apply %s" % (target, patch))
+        if ap.returncode != 0:      # the repository moved on since the change was stored: try a three-way merge
+            ap = sh("git -C %s apply --3way %s" % (target, patch))
         env = dict(os.environ, VERIF_REPO=target)
     if ap.returncode != 0:
         print("patch does not apply: " + ap.stdout)
